@@ -1026,6 +1026,63 @@ impl Engine for ResEngine {
       }
       ctx::trace("late attach of zzz handler".to_owned());
     }
+    // ---- phase 5: a DID text with blanks or control characters before or behind it ----
+    // The library may refuse the text. If it accepts it, the accepted DID's method is the one written in the text:
+    // exactly that method's handler runs, or the error names exactly that method.
+    if ctx::choose(6) == 0 {
+      let m = METHODS[ctx::choose(METHODS.len())];
+      let blank = [" ", "\n", "\t", "\n\n\n\n", "\u{1}", "  "][ctx::choose(6)];
+      let before = ctx::choose(3) != 0;
+      let text = if before { format!("{blank}did:{m}:a1") } else { format!("did:{m}:a1{blank}") };
+      ctx::stat("probe.did_text_with_blank_around");
+      match CoreDID::parse(&text) {
+        Err(_) => ctx::stat("observation.did_text_with_blank_around_refused"),
+        Ok(did) => {
+          ctx::sched("wsdid", (blank.len() * 2 + before as usize) as u64);
+          let shown = did.to_string();
+          st(|s| {
+            s.open.clear();
+            s.parked.clear();
+            s.invocations.clear();
+            s.completions.clear();
+            s.plans.insert(shown.clone(), Plan { stages: 0, ok: true, nonce: 777 });
+          });
+          let out: RefCell<Option<Result<CoreDocument, identity_resolver::Error>>> = RefCell::new(None);
+          let polls = match &resolver {
+            ResolverKind::SendSync(r) => drive(prop, "blank", r.resolve(&did), &out, false),
+            ResolverKind::Single(r) => drive(prop, "blank", r.resolve(&did), &out, false),
+          };
+          if polls.is_none() {
+            return;
+          }
+          let inv = st(|s| s.invocations.clone());
+          let res = out.into_inner().expect("root finished");
+          let attached = methods.contains(&m);
+          let fine = if attached {
+            inv.len() == 1 && inv[0].0 == m
+          } else {
+            inv.is_empty() && matches!(res.as_ref().map_err(classify_err), Err(Expect::Unsupported(ref u)) if u == m)
+          };
+          if !fine {
+            ctx::violation(
+              prop,
+              "C20.dispatch_exact_handler",
+              "accepted-did-text-with-blank-around/wrong-dispatch",
+              format!(
+                "{text:?} is accepted as a DID (method() = {:?}); method {m} {}: handler invocations {inv:?}, result {}",
+                did.method(),
+                if attached { "has a handler" } else { "has no handler" },
+                match &res {
+                  Ok(_) => "Ok".to_owned(),
+                  Err(e) => format!("Err({:?})", classify_err(e)),
+                }
+              ),
+            );
+          }
+          ctx::trace(format!("blank-around did text accepted, method {:?}", did.method()));
+        }
+      }
+    }
     if gated_in_flight >= 2 {
       ctx::mark_nontrivial();
     }
